@@ -1,6 +1,8 @@
 """C02 -- a patch never touches configuration outside the generators' ACL (structural clauses)."""
 import ast
 
+from sa.util import acl_scratch_write
+
 from sa import guards as G
 from sa.flow import GuardMap, Provenance
 from sa.repo import AnchorError, call_name, calls_in, dotted, norm, walk_no_nested, kwarg
@@ -338,7 +340,7 @@ def r7(c):
                      "`matches` / `rules` arguments (children rules of several matches are merged into fresh dicts), and _find_acl_matches writes only the exempt scratch field "
                      "['attrs']['match'] — a rule grafted onto another rule's children would make later rows covered by rules no generator placed there")
     m = repo.module(PATCHING)
-    eff = Effects(repo, mode="paths", max_depth=6)
+    eff = Effects(repo, mode="contents", max_depth=6)
     for q in ("_select_match", "match_row_to_acl", "_find_acl_matches"):
         fn = repo.func(PATCHING, q)
         c.count("functions")
@@ -347,8 +349,7 @@ def r7(c):
         for p, sites in mut.items():
             for s_ in sites:
                 wn = s_.root[3]
-                tgt = wn.targets[0] if isinstance(wn, ast.Assign) else None
-                scratch = isinstance(tgt, ast.Subscript) and isinstance(tgt.slice, ast.Constant) and tgt.slice.value == "match" and norm(tgt.value).replace('"', "'").endswith("['attrs']")
+                scratch = acl_scratch_write(repo, wn)
                 if not scratch:
                     bad.append((p, s_))
         if bad:
